@@ -14,6 +14,8 @@ import (
 	"fmt"
 	"os"
 	"path/filepath"
+	"regexp"
+	"runtime"
 	"sort"
 	"strings"
 	"sync"
@@ -68,6 +70,8 @@ type HistRec struct {
 	Ops      []OpRec     `json:"ops"`
 	EndNotes []string    `json:"end_notes"` // violations found at the quiescent end (H4, reopen)
 	EndKinds []string    `json:"end_kinds"`
+	Hung     bool        `json:"hung,omitempty"` // operations still open at the history watchdog
+	Blocked  []string    `json:"blocked_in,omitempty"`
 	Pauses   int64       `json:"store_pauses,omitempty"` // pauses the store inserted after commits (wl.DelayDB)
 	Stress   *Stress     `json:"stress,omitempty"`
 	Gov      *Governance `json:"governance,omitempty"`
@@ -137,7 +141,7 @@ func step(st State, in In, out Out) (bool, State) {
 	case "names":
 		return len(out.Names) == st.NKs, st
 	case "count", "list":
-		return out.Ext == int(st.Next[k][0]) && out.Int == int(st.Next[k][1]) && (in.Op == "count" || out.Prefix), st
+		return out.Bad == "" && out.Ext == int(st.Next[k][0]) && out.Int == int(st.Next[k][1]) && (in.Op == "count" || out.Prefix), st
 	case "remark?":
 		return out.S == st.Remark[k], st
 	case "remark!":
@@ -194,6 +198,7 @@ func child(seed int64, from, to int, outPath, progPath string) {
 	pf, _ := os.OpenFile(progPath, os.O_CREATE|os.O_WRONLY|os.O_APPEND, 0o644)
 	defer pf.Close()
 	root := vh.NewRng(uint64(seed)).Derive("C14", 0)
+	hung := 0
 	for i := from; i < to; i++ {
 		fmt.Fprintf(pf, "START %d\n", i)
 		rec := oneHistory(root.Derive("hist", i), i, filepath.Join(dir, fmt.Sprintf("h%d", i)))
@@ -202,6 +207,13 @@ func child(seed int64, from, to int, outPath, progPath string) {
 		w.WriteByte('\n')
 		w.Flush()
 		fmt.Fprintf(pf, "DONE %d\n", i)
+		if rec.Hung {
+			// every further hang costs the full watchdog: after two the rest of the batch is not run
+			if hung++; hung >= 2 {
+				fmt.Fprintf(pf, "ABANDONED %d\n", i+1)
+				break
+			}
+		}
 	}
 }
 
@@ -252,6 +264,14 @@ func oneHistory(rng *vh.Rng, idx int, dir string) HistRec {
 			}
 		}
 	}
+	// half of the histories start after a private passphrase change made in this process (the keystores' key
+	// material is then the one the change installed, not the one loaded from the store)
+	if rng.Bool() {
+		np := wl.FreshPass(rng)
+		if err := wa.M.ChangePrivPassphrase(priv, np, wl.FastScrypt); err == nil {
+			priv = np
+		}
+	}
 	if rng.Bool() {
 		wa.M.Unlock(priv)
 		st.Locked = false
@@ -276,6 +296,10 @@ func oneHistory(rng *vh.Rng, idx int, dir string) HistRec {
 			k := rng.Intn(nks)
 			in := In{K: k}
 			ws := []int{20, 12, 14, 8, 4, 2, 5, 5, 5, 5, 4, 5, 7, 5}
+			if idx%5 == 3 {
+				// export-heavy: exports of both keystores racing each other, lock changes and issuance
+				ws = []int{6, 4, 4, 2, 1, 1, 2, 3, 3, 3, 40, 6, 6, 2}
+			}
 			if idx%5 == 2 {
 				// remark-heavy: remark changes racing with each other, with remark reads and with exports
 				ws = []int{4, 3, 2, 1, 1, 1, 2, 2, 14, 30, 12, 2, 3, 1}
@@ -335,7 +359,14 @@ func oneHistory(rng *vh.Rng, idx int, dir string) HistRec {
 		}(g)
 	}
 	close(start)
-	wg.Wait()
+	if blocked, timedOut := waitOrDump(&wg, historyWatchdog); timedOut {
+		// operations that never returned: a verdict only if the dump shows goroutines blocked on a lock inside the
+		// wallet code (the judge drops the history otherwise)
+		mu.Lock()
+		rec.Hung, rec.Blocked = true, blocked
+		mu.Unlock()
+		return rec
+	}
 	if ddb != nil {
 		rec.Pauses = ddb.Pauses
 	}
@@ -470,6 +501,42 @@ func governanceHistory(rng *vh.Rng, idx int, dir string) HistRec {
 	return rec
 }
 
+const historyWatchdog = 60 * time.Second
+
+var lockBlockedRe = regexp.MustCompile(`(?s)goroutine \d+ \[(semacquire|sync\.RWMutex\.R?Lock|sync\.Mutex\.Lock|sync\.WaitGroup\.Wait)[^\]]*\]:\n(.*?)\n\n`)
+
+var argsRe = regexp.MustCompile(`\((?:0x|\{|\.\.\.|\)).*$`)
+
+// waitOrDump waits for wg; after d it returns the wallet-code functions in which goroutines are blocked on a lock.
+func waitOrDump(wg *sync.WaitGroup, d time.Duration) ([]string, bool) {
+	done := make(chan struct{})
+	go func() { wg.Wait(); close(done) }()
+	select {
+	case <-done:
+		return nil, false
+	case <-time.After(d):
+	}
+	buf := make([]byte, 4<<20)
+	dump := string(buf[:runtime.Stack(buf, true)])
+	seen := map[string]bool{}
+	var out []string
+	for _, m := range lockBlockedRe.FindAllStringSubmatch(dump+"\n\n", -1) {
+		for _, l := range strings.Split(m[2], "\n") {
+			l = strings.TrimSpace(l)
+			if strings.HasPrefix(l, "massnet.org/mass/poc/wallet") {
+				fn := m[1] + " in " + strings.TrimPrefix(argsRe.ReplaceAllString(l, ""), "massnet.org/mass/")
+				if !seen[fn] {
+					seen[fn] = true
+					out = append(out, fn)
+				}
+				break
+			}
+		}
+	}
+	sort.Strings(out)
+	return out, true
+}
+
 // stressHistory: see Stress.
 func stressHistory(rng *vh.Rng, idx int, dir string) HistRec {
 	rec := HistRec{Idx: idx, Stress: &Stress{}}
@@ -598,6 +665,9 @@ func stressHistory(rng *vh.Rng, idx int, dir string) HistRec {
 					}
 					seen[kr.br][kr.idx] = true
 				}
+				if n := len(am.ListAddresses()); n < len(seen[0])+len(seen[1]) {
+					viol("address-listings-disagree", fmt.Sprintf("ListAddresses lists %d addresses after ManagedAddresses listed %d", n, len(seen[0])+len(seen[1])))
+				}
 				for b := 0; b < 2; b++ {
 					got[b] = len(seen[b])
 					for j := 0; j < len(seen[b]); j++ {
@@ -661,9 +731,17 @@ func stressHistory(rng *vh.Rng, idx int, dir string) HistRec {
 	for i := 0; i < R; i++ {
 		go reader(i, rng.Derive("r", i))
 	}
-	wwg.Wait()
+	if blocked, timedOut := waitOrDump(&wwg, historyWatchdog); timedOut {
+		rec.Hung, rec.Blocked = true, blocked
+		rec.Stress = nil
+		return rec
+	}
 	close(stop)
-	rwg.Wait()
+	if blocked, timedOut := waitOrDump(&rwg, historyWatchdog); timedOut {
+		rec.Hung, rec.Blocked = true, blocked
+		rec.Stress = nil
+		return rec
+	}
 	st.Issued = [2]int64{done[0], done[1]}
 	st.Distinct = len(answers)
 	// quiescent: exact
@@ -755,6 +833,10 @@ func exec(wa *wl.Wallet, ids []string, priv []byte, in In, pubOf func(k, br, i i
 					seen[r.br][r.idx] = true
 				}
 				out.Ext, out.Int = len(seen[0]), len(seen[1])
+				if n := len(am.ListAddresses()); n < out.Ext+out.Int {
+					// taken after ManagedAddresses: may only have grown
+					out.Bad = fmt.Sprintf("ListAddresses lists %d addresses after ManagedAddresses listed %d", n, out.Ext+out.Int)
+				}
 				for br := 0; br < 2; br++ {
 					for i := 0; i < len(seen[br]); i++ {
 						if !seen[br][i] {
@@ -843,6 +925,11 @@ func main() {
 			if _, err := fmt.Sscanf(l, "DONE %d", &x); err == nil && x == last {
 				last = -1
 			}
+			if _, err := fmt.Sscanf(l, "ABANDONED %d", &x); err == nil {
+				for i := x; i < b.to; i++ {
+					run.Drop("history not run: batch abandoned after two hung histories")
+				}
+			}
 		}
 		if res.TimedOut {
 			run.Drop("child batch watchdog (10 min) fired")
@@ -902,6 +989,15 @@ func main() {
 }
 
 func judge(run *vh.Run, h *HistRec, interleavings map[uint64]bool, imu *sync.Mutex) {
+	if h.Hung {
+		if len(h.Blocked) == 0 {
+			run.Drop("history did not finish within the watchdog and no goroutine is blocked on a lock in wallet code")
+			return
+		}
+		run.Violate(h.Idx, "wallet-calls-never-returned", map[string]string{"blocked_in": strings.Join(h.Blocked, "; ")}, map[string]interface{}{"history": h, "watchdog": historyWatchdog.String()})
+		run.Case(vh.HashS(fmt.Sprintf("hung-%d", h.Idx)), true)
+		return
+	}
 	if h.Gov != nil {
 		if h.Gov.Rounds == 0 {
 			run.Drop("governance-race history without a round (setup failed)")
